@@ -410,7 +410,7 @@ def run(env) -> Result:
     # interrupted batches: the body of a start_update() block raises part-way and the caller catches it (own PRNG stream, so that
     # the histories above stay what they were)
     rnd5 = mkrng(env["seed"], "c18-interrupted")
-    for _ in range(70 if tier == "quick" else 1200):
+    for _ in range(70 if tier == "quick" else 400):
         n = rnd5.randint(1, 6) if rnd5.random() < 0.95 else 0
         with_offsets = rnd5.random() < 0.3
         for align, compiled in itertools.product((False, True), (False, True)):
